@@ -481,9 +481,9 @@ Definition bodies (v : value) : list (list value) :=
   | _ => []
   end.
 
-(* `order` = the concrete class names of AST_TYPES_WITH_BODY + AST_TYPES_WITH_ORELSE in the
-   iteration order of the set built at core.py:504 (process dependent, supplied by the harness and
-   checked to be a permutation of the union of the regenerated tables) *)
+(* `order` = the concrete class names of dict.fromkeys of AST_TYPES_WITH_BODY followed by AST_TYPES_WITH_ORELSE
+   (core.py:504-508: first occurrences in table order; the case predicate checks the harness-supplied
+   order against the regenerated tables) *)
 Definition walk_sequence (order : list tag) (root : value) (ts : list tmpl)
   : list (list value * binds) :=
   let scopes := map fst (walk_wildcard root (TOr (map (fun g => TType [g]) order))) in
